@@ -32,9 +32,10 @@ func c15Scenarios(cfg runCfg) []Scenario {
 }
 
 type c15tree struct {
-	gx    *GX
-	gen   *rapid.Generator[any]
-	ctors *atomic.Int64
+	inlineExpr string // if set: generators for this expression are constructed inside the property, too
+	gx         *GX
+	gen        *rapid.Generator[any]
+	ctors      *atomic.Int64
 }
 
 // c15Build builds the round's tree: a random expression biased to lazily initialised nodes, wrapped in a
@@ -66,7 +67,11 @@ func c15Build(seed uint64) c15tree {
 		ctors.Add(1)
 		return inner
 	})
-	return c15tree{gx, gen, ctors}
+	tr := c15tree{gx: gx, gen: gen, ctors: ctors}
+	if seed%7 == 2 || seed%7 == 6 {
+		tr.inlineExpr = fmt.Sprintf(`([a-c]|xy+|[0-9]{1,3}z?){1,4}(?:r%x)?`, seed&0xffffff) // unique text per round, equal for the fresh twin
+	}
+	return tr
 }
 
 // c15DeepCustom is a chain of 30 nested Custom generators: every draw is 30 generator calls deep, so 8-16
@@ -101,6 +106,14 @@ func c15DeepCustom(r *rng) *GX {
 func c15Prop(tr c15tree, mode int, prefix int, log *[]string, bad *string) func(t *rapid.T) {
 	sub := rapid.SliceOfN(tr.gen, 1, 2)
 	return func(t *rapid.T) {
+		if tr.inlineExpr != "" {
+			// every test case of every check builds its own generator for one and the same expression text: building
+			// a generator (process-wide caches behind it) while others draw from theirs is part of "shared by checks"
+			v := rapid.StringMatching(tr.inlineExpr).Draw(t, "inline")
+			*log = append(*log, canon(v))
+			w := rapid.SliceOfBytesMatching(tr.inlineExpr).Draw(t, "inline-bytes")
+			*log = append(*log, canon(w))
+		}
 		// a different number of throw-away draws per check: with the same -rapid.seed the checks then take
 		// different paths through the shared tree at the same time
 		for i := 0; i < prefix; i++ {
